@@ -65,13 +65,44 @@ def strip_ref(ty):
 
 
 def base_ty(ty):
-    """path of an ADT type without its generic arguments"""
-    ty = strip_ref(ty)
-    depth = 0
-    for i, c in enumerate(ty):
-        if c == "<" and i > 0:
-            return ty[:i].rstrip(":")
+    """path of an ADT type without its trailing generic arguments
+    (`a::B<X>::f::G<'_, T>` -> `a::B<X>::f::G`)"""
+    ty = strip_ref(ty).strip()
+    if ty.endswith(">"):
+        depth = 0
+        for i in range(len(ty) - 1, -1, -1):
+            c = ty[i]
+            if c == ">":
+                # `->` inside fn pointer types never ends a type we care about
+                depth += 1
+            elif c == "<":
+                depth -= 1
+                if depth == 0:
+                    return ty[:i].rstrip(":")
     return ty
+
+
+def generic_args(ty):
+    """top-level generic arguments of the trailing `<..>` group"""
+    ty = strip_ref(ty).strip()
+    b = base_ty(ty)
+    if b == ty:
+        return []
+    inner = ty[len(b):].lstrip(":")[1:-1]
+    out, depth, cur = [], 0, ""
+    for c in inner:
+        if c in "<([":
+            depth += 1
+        elif c in ">)]":
+            depth -= 1
+        if c == "," and depth == 0:
+            out.append(cur.strip())
+            cur = ""
+        else:
+            cur += c
+    if cur.strip():
+        out.append(cur.strip())
+    return out
 
 
 def extend_org(org, rest):
@@ -679,6 +710,27 @@ class Facts:
             if p == base or base.endswith("::" + p) or p.endswith("::" + base):
                 return a
         return None
+
+    def drop_glue(self, ty, _seen=None):
+        """Drop::drop bodies (paths) run when a value of type `ty` is dropped, via the ADT table;
+        also returns the set of opaque types (type parameters, foreign types) dropped"""
+        _seen = _seen if _seen is not None else set()
+        ty = ty.strip()
+        if ty in _seen or ty.startswith("&") or ty.startswith("*"):
+            return [], set()
+        _seen.add(ty)
+        a = self.adts.get(base_ty(ty))
+        if not a:
+            return [], {ty}
+        calls, opaque = [], set()
+        if a.get("drop"):
+            calls.append(a["drop"])
+        for v in a["variants"]:
+            for f in v["fields"]:
+                c2, o2 = self.drop_glue(f["ty"], _seen)
+                calls += c2
+                opaque |= o2
+        return calls, opaque
 
     def impls_of(self, trait):
         return [i for i in self.impls if i["trait"] == trait]
